@@ -63,11 +63,14 @@ pub fn read(mut reader: impl io::Read) -> io::Result<Value> {
 }
 
 fn read_typed<T: Element>(header: &Header, mut reader: impl io::Read) -> io::Result<Tensor<T>> {
-    let n_elements = header
+    // Check the product of the non-zero dimensions, so that a zero dimension
+    // cannot mask an overflow in the strides of the remaining dimensions.
+    header
         .shape
         .iter()
-        .try_fold(1usize, |acc, &dim| acc.checked_mul(dim))
+        .try_fold(1usize, |acc, &dim| acc.checked_mul(dim.max(1)))
         .ok_or_else(|| invalid_data("array element count overflows"))?;
+    let n_elements: usize = header.shape.iter().product();
     let n_bytes = n_elements
         .checked_mul(T::ITEM_SIZE)
         .ok_or_else(|| invalid_data("array size in bytes overflows"))?;
